@@ -438,7 +438,7 @@ class Registry:
         if isinstance(typ, api.Obj):
             cls = self._resolve_class(typ.cls) if isinstance(typ.cls, str) else typ.cls
             if isinstance(v, SObj):
-                if v.cls is not cls:
+                if v.cls is not cls and not (isinstance(typ, api.SubObj) and issubclass(v.cls, cls)):
                     return False
                 parts = []
                 for fname, ftyp in typ.fields.items():
